@@ -105,7 +105,10 @@ fn check_site(site: &CallSite, cfg: &Cfg) -> SiteResult {
         args.result_id = Some(EXPLICIT);
     }
     let cfg_s = format!("{:?}", cfg);
-    let rep = json!({"kind": "builder-call", "method": site.name, "config": cfg_s});
+    let rep = json!({"kind": "builder-call", "method": site.name, "config": cfg_s, "cfg": {
+        "explicit_id": cfg.explicit_id, "opt_upto": if cfg.opt_upto == usize::MAX { -1i64 } else { cfg.opt_upto as i64 }, "list_len": cfg.list_len,
+        "choice_at": cfg.choice_at.map(|(a, b)| vec![a, b]), "in_block": cfg.in_block, "insert_begin": cfg.insert_begin,
+        "version_late": cfg.version_late, "prior_identical": cfg.prior_identical}});
     let mut out = SiteResult { viols: vec![], c16: vec![], outcome: "checked" };
     // a parameterised mask whose parameters cannot be expressed through this method's signature: the single
     // `additional_params` list comes after a LATER value parameter, so the grammar order is not reachable
@@ -633,6 +636,58 @@ fn main() {
     let tier = if args.iter().any(|a| a == "thorough") || std::env::var("VERIF_TIER").as_deref() == Ok("thorough") && !args.iter().any(|a| a == "quick") { Tier::Thorough } else { Tier::Quick };
     install_panic_hook();
     let sites: Vec<&CallSite> = gen::CALLS.iter().filter(|s| !STRUCTURAL.contains(&s.name)).collect();
+    if mode == "--replay" {
+        // vcalls --replay <file>: re-executes one builder-call / builder-history artefact, twice
+        let doc: serde_json::Value = serde_json::from_str(&std::fs::read_to_string(&args[2]).expect("replay file")).expect("json");
+        println!("key:      {}\nrecorded: {}", doc["key"], doc["what"]);
+        let r = &doc["replay"];
+        let run_once = || -> Option<Vec<String>> {
+            if r["kind"] == "builder-call" {
+                let site = gen::CALLS.iter().find(|s| s.name == r["method"].as_str().unwrap_or(""))?;
+                let c = &r["cfg"];
+                let cfg = Cfg {
+                    explicit_id: c["explicit_id"].as_bool()?,
+                    opt_upto: match c["opt_upto"].as_i64()? { -1 => usize::MAX, x => x as usize },
+                    list_len: c["list_len"].as_u64()? as usize,
+                    choice_at: c["choice_at"].as_array().map(|a| (a[0].as_u64().unwrap() as usize, a[1].as_u64().unwrap() as usize)),
+                    in_block: c["in_block"].as_bool()?,
+                    insert_begin: c["insert_begin"].as_bool()?,
+                    version_late: c["version_late"].as_bool()?,
+                    prior_identical: c["prior_identical"].as_bool()?,
+                };
+                let res = check_site(site, &cfg);
+                Some(res.viols.iter().chain(res.c16.iter()).map(|v| v.what.clone()).collect())
+            } else if r["kind"] == "builder-history" {
+                let h: Option<Vec<HOp>> = r["history"].as_array()?.iter().map(|x| HOPS.iter().copied().find(|o| format!("{:?}", o) == x.as_str().unwrap_or(""))).collect();
+                let (v, _, _) = check_history(&h?);
+                Some(v.into_iter().map(|v| v.what).collect())
+            } else {
+                None
+            }
+        };
+        let (a, b) = (run_once(), run_once());
+        match (a, b) {
+            (Some(x), Some(y)) if x == y => {
+                if x.is_empty() {
+                    println!("=> no violation on the current tree");
+                    std::process::exit(0)
+                }
+                for l in &x {
+                    println!("observed: {}", l);
+                }
+                println!("=> the violation REPRODUCES");
+                std::process::exit(1)
+            }
+            (Some(_), Some(_)) => {
+                println!("MACHINERY-ERROR: two executions of the same artefact differ");
+                std::process::exit(2)
+            }
+            _ => {
+                println!("replay payload: {}\n(no dedicated re-executor for this kind)", r);
+                std::process::exit(2)
+            }
+        }
+    }
     if mode == "--c12" {
         let (n, vs) = c12_sweep(&sites);
         let mut seen = HashSet::new();
